@@ -138,6 +138,28 @@ def check_locations(ctx, name):
         ctx.violation('contents differ: by name vs by explicit path', case,
                       {'by_name': da, 'by_path': db})
         return
+    # once more by name in the same process, and by a RELATIVE path
+    a2 = observe(libs.fresh, name)
+    cwd = os.getcwd()
+    try:
+        os.chdir(libs.data_dir())
+        b2 = observe(libs.fresh, os.path.join(name, 'library.yaml'))
+        os.chdir(os.path.join(libs.data_dir(), name))
+        b3 = observe(libs.fresh, os.path.join('.', 'library.yaml'))
+    finally:
+        os.chdir(cwd)
+    ctx.evals(3)
+    for how, o in (('by name, second time in the process', a2),
+                   ('by a path relative to the data directory', b2),
+                   ('by ./library.yaml from inside its directory', b3)):
+        if 'exc' in o:
+            ctx.violation('library does not load %s (%s)' % (how, o['exc']),
+                          case, {'msg': o['msg']})
+            return
+        if digests.library_digest(o['ok']) != da:
+            ctx.violation('contents differ: by name vs %s' % how, case, {})
+            return
+    ctx.count('extra_loading_routes_compared', 3)
     rep, dst, err = relocated_report([name])
     ctx.evals()
     if rep is None:
